@@ -1379,7 +1379,7 @@ def explore(tier, seed, rng, wd, violations):
             plist.append((n, cls))
     nr = 1500 if tier == "quick" else 12000
     plist += [(n, "small") for n in range(0, 600)]
-    plist += [(rng.randrange(0, 1 << 26), "random26") for _ in range(nr)]
+    plist += [(rng.randrange(0, 1 << 26), "random26") for _ in range(nr // 3)]     # (the sweep covers this range exhaustively)
     plist += [(rng.randrange(1 << 26, 1 << 40) | 1, "random40") for _ in range(nr // 3)]
     plist += [(rng.randrange(1 << 40, M64) | 1, "random64") for _ in range(nr // 3)]
     plist += [(rng.randrange(1 << 63, M64), "random64hi") for _ in range(nr // 6)]
